@@ -482,10 +482,15 @@ impl<T: Qcow2IoOps> Qcow2Dev<T> {
     //// flush refcount table and block dirty data to disk
     #[async_recursion(?Send)]
     pub(crate) async fn flush_refcount(&self) -> Qcow2Result<()> {
-        let mut rt_written = false;
-
         // lock order: reftable first, see add_rb_slice()
         let rt = &*self.reftable.read().await;
+
+        self.flush_refcount_locked(rt).await
+    }
+
+    /// flush refcount table and blocks for the holder of the reftable lock
+    pub(crate) async fn flush_refcount_locked(&self, rt: &RefTable) -> Qcow2Result<()> {
+        let mut rt_written = false;
         let _flush_lock = self.refcount_flush_lock.lock().await;
 
         loop {
